@@ -20,9 +20,10 @@ def _(row: Row) -> None:
 @contract("get_validated_dataset_name")
 def _(entity: Row) -> str:
     properties("C19", "C17")
-    requires("dataset" in entity)
     d = entity["dataset"]
-    raises(PyXFormError, when=d.startswith("__") or "." in d or not (len(d) > 0 and matches(d, "pyxform.parsing.expression.RE_ONLY_NCNAME")))
+    # a missing or empty list_name is refused like an invalid one (never a KeyError)
+    raises(PyXFormError, when=not ("dataset" in entity and len(d) > 0)
+           or d.startswith("__") or "." in d or not matches(d, "pyxform.parsing.expression.RE_ONLY_NCNAME"))
     ensures(result == d)
 
 
@@ -30,7 +31,6 @@ def _(entity: Row) -> str:
 def _(entities_sheet: List[Row]):
     properties("C19", "C17")
     requires(len(entities_sheet) >= 1)
-    requires("dataset" in entities_sheet[0])
     row = entities_sheet[0]
     has_id = "entity_id" in row and len(row["entity_id"]) > 0
     has_create = "create_if" in row and len(row["create_if"]) > 0
@@ -38,7 +38,7 @@ def _(entities_sheet: List[Row]):
     has_label = "label" in row and len(row["label"]) > 0
     bad_cols = exists(0, len(keys(row)), lambda k: keys(row)[k] not in ("dataset", "entity_id", "create_if", "update_if", "label"))
     d = row["dataset"]
-    bad_name = d.startswith("__") or "." in d or not (len(d) > 0 and matches(d, "pyxform.parsing.expression.RE_ONLY_NCNAME"))
+    bad_name = (not ("dataset" in row and len(d) > 0)) or d.startswith("__") or "." in d or not matches(d, "pyxform.parsing.expression.RE_ONLY_NCNAME")
     # the documented decision table: rejected combinations
     raises(PyXFormError, when=len(entities_sheet) > 1 or bad_cols or bad_name
            or (has_update and not has_id)
